@@ -69,6 +69,26 @@ def complete_message(ident, rnd, pattern="random"):
     return None
 
 
+def sign_only_variant(payload):
+    """The same message with every signed field set to 'sign bit only' (two's complement: the most negative value; sign-magnitude:
+    minus zero) - boundary values random data practically never contains.  Signed fields are never counts, masks or conditions,
+    so the layout is unchanged.  None if the payload has no signed field."""
+    lay = refdecode.field_layout(payload)
+    if not lay:
+        return None
+    core = refdecode.tables()[0]
+    bits = list("".join(format(b, "08b") for b in payload))
+    hit = False
+    for base, typ, off, width in lay:
+        if typ in (core.INT, core.INTS) and width >= 2 and off + width <= len(bits):
+            bits[off:off + width] = ["1"] + ["0"] * (width - 1)
+            hit = True
+    if not hit:
+        return None
+    s = "".join(bits)
+    return bytes(int(s[i:i + 8], 2) for i in range(0, len(s), 8))
+
+
 def igs_201_single_layer(rnd, degree_field, order_field):
     """A complete one-layer 4076_201 payload with the given 4-bit degree / order field values (degree = field + 1): the extreme
     shapes (degree 16, order >= 11 -> more than 136 cosine coefficients) that random field values rarely produce."""
